@@ -289,6 +289,11 @@ def check(case, ctx):
         fails.append(Fail("history-starting-point", dict(feats, guess_param_changed_after_transcription=stale_guess_feature(sp, case["ops"])), {"evolved": nA.x0, "fresh": nF.x0, "ops": case["ops"]}))
     # ---- (i) constants written in
     tw = constant_twin(spF)
+    if any(c04.degenerate(c) for c in tw["constraints"]):
+        # with the values written in, a factor of a shifted operand is exactly zero (e.g. (0.5 + p)*prev(x) with p = -0.5): CasADi drops
+        # the operand and with it the exclusion of the nodes it reaches outside the horizon; the twin is a different problem by construction
+        ctx.count("twin_loses_a_shifted_operand")
+        return fails
     BT = build(tw)
     nT = NLP(BT.ocp)
     if nT.nx != nA.nx:
